@@ -5,6 +5,7 @@ RULE = ("vectors computed by TLC from Prims.tla: widths 1-2 exhaustively (range 
         "seeded pseudo-random values of every width x sizes -1..9; every decode of all 1- and 2-byte strings; string reader on every "
         "prefix of 300-byte inputs per declared length; date constructors/accessors at ms/second boundaries. A vector is non-trivial "
         "when at least one C12 predicate's antecedent held on its recorded event; distinct = distinct vector content.")
+RULE += (' Chain events: one/two-byte integers, strings and dates kept by the caller, appended to and overwritten while neighbours are encoded; second counts whose product wraps around 2^64.')
 ASSUME = ["TLC evaluates the reference codecs (Prims.tla, Bytes.tla limb arithmetic) correctly",
           "the driver converts limb arrays to Go ints with encoding/binary only",
           "values >= 2^63 are outside the domain of the int-typed constructors and are not demanded of Int()/IntSafe()"]
